@@ -174,7 +174,7 @@ def run(tier):
 def replay(path):
     doc = json.loads(open(path).read())
     case = doc["case"]
-    ck = c.Check(PROP, "quick")
+    ck = None      # a stored case is re-executed without touching the evidence of the last run
     if case["kind"] == "S->I replay":
         wd = c.workdir(PROP, "replay_one")
         paths = u.render_ff(case["ff"], case["fmt"], wd, tag="f")
